@@ -1790,6 +1790,104 @@ def run_text_stream(ctx):
 
 
 
+# ---------------------------------------------------------------------------------- converted lookup values
+# by<AlternateID>() / unique-index get() on a column whose from_python is NOT idempotent (UuidCol: uuid.UUID -> str,
+# a str is refused): the looked-up value is converted once; a present key finds its row, an absent one is not-found.
+# Oracle: raw `SELECT id, u, n`.
+
+_uuenv = {}
+
+
+def uu_env():
+    if _uuenv:
+        return _uuenv
+    sqlo.setup()
+    from sqlobject import SQLObject, IntCol, UuidCol, DatabaseIndex
+    conn = sqlo.mem_conn()
+
+    class C11Uu(SQLObject):
+        _connection = conn
+        u = UuidCol(alternateID=True)
+        n = IntCol(default=None)
+        unIdx = DatabaseIndex('u', 'n', unique=True)
+    C11Uu.createTable()
+    _uuenv.update(conn=conn, cls=C11Uu)
+    return _uuenv
+
+
+def run_uuid_scenario(sc):
+    import uuid
+    from sqlobject import SQLObjectNotFound
+    e = uu_env()
+    cls, conn = e['cls'], e['conn']
+    conn.query('DELETE FROM %s' % cls.sqlmeta.table)
+    conn.cache.clear()
+    for k, n in sc['rows']:
+        cls(u=uuid.UUID(int=k), n=n)
+    for st in sc['steps']:
+        if st[0] == 'upd':
+            cls.byU(uuid.UUID(int=st[1])).u = uuid.UUID(int=st[2])
+        elif st[0] == 'del':
+            cls.byU(uuid.UUID(int=st[1])).destroySelf()
+    truth = {str(r[1]): (r[0], r[2]) for r in conn.queryAll('SELECT id, u, n FROM %s' % cls.sqlmeta.table)}
+    bad = []
+
+    def look(what, f):
+        try:
+            return f().id
+        except SQLObjectNotFound:
+            return 'not-found'
+        except Exception as ex:
+            return 'raised ' + exc_out(ex)
+    for k in sc['probe']:
+        u = uuid.UUID(int=k)
+        want = truth.get(str(u), (None, None))
+        w = want[0] if want[0] is not None else 'not-found'
+        got = look('byU', lambda: cls.byU(u))
+        if got != w:
+            bad.append('byU(%s): %r, the table has %r' % (u, got, w))
+        for n in sc['ns']:
+            wn = want[0] if (want[0] is not None and want[1] == n and n is not None) else 'not-found'
+            for name, f in (('unIdx.get(u=, n=)', lambda: cls.unIdx.get(u=u, n=n)), ('unIdx.get(u, n)', lambda: cls.unIdx.get(u, n))):
+                got = look(name, f)
+                if got != wn:
+                    bad.append('%s with (%s, %r): %r, the table has %r' % (name, u, n, got, wn))
+        got = sorted(o.id for o in cls.selectBy(u=u))
+        if got != ([want[0]] if want[0] is not None else []):
+            bad.append('selectBy(u=%s): %r, the table has %r' % (u, got, want[0]))
+    return bad
+
+
+def run_uuid_stream(ctx):
+    rng = ctx.rng
+    scenarios = [{'rows': [[1, 0], [7919, 1], [15838, 0]], 'steps': [], 'probe': [1, 7919, 15838, 5], 'ns': [0, 1]}]
+    for _ in range(ctx.budget(12, 200)):
+        keys = rng.sample(range(1, 60), rng.choice([1, 2, 3, 5]))
+        rows = [[k * 7919, rng.choice([0, 1, 2])] for k in keys]
+        steps = []
+        live = [r[0] for r in rows]
+        if rng.random() < 0.4:
+            old = rng.choice(live)
+            steps.append(['upd', old, old + 1])
+            live[live.index(old)] = old + 1
+        if rng.random() < 0.3 and len(live) > 1:
+            steps.append(['del', live.pop()])
+        scenarios.append({'rows': rows, 'steps': steps, 'probe': sorted(set([r[0] for r in rows] + live + [3, rows[0][0] + 2])),
+                          'ns': [0, 1, 2]})
+    for sc in scenarios:
+        try:
+            bad = run_uuid_scenario(sc)
+        except Exception as ex:
+            bad = ['harness step failed: ' + exc_out(ex) + ' ' + repr(ex)[:200]]
+        ctx.case(('uuid', json.dumps(sc, sort_keys=True)), nontrivial=True, sample={'scenario': sc, 'bad': bad[:1]},
+                 kind='converted-key lookup (UuidCol alternateID / unique index)')
+        if bad:
+            ctx.oracle_fail('C11:uuid:%s' % json.dumps(sc, sort_keys=True, separators=(',', ':')),
+                            'UuidCol lookups on rows %s after %s: %s' % (sc['rows'], sc['steps'], '; '.join(bad[:3])),
+                            {'uusc': sc, 'tag': 'uuid-lookup'})
+
+
+
 def corpus_cases():
     d = os.path.join(os.path.dirname(os.path.dirname(os.path.abspath(__file__))), 'corpus', 'C11')
     out = []
@@ -1807,6 +1905,7 @@ def run(ctx):
     rng = ctx.rng
     run_tx_stream(ctx)
     run_text_stream(ctx)
+    run_uuid_stream(ctx)
     run_mc_stream(ctx)
     for fn, c in corpus_cases():
         run_table(ctx, c['table'], [(ph.get('mutations', []), ph['queries']) for ph in c['phases']], 'corpus:' + fn)
